@@ -26,6 +26,23 @@ def _short(ro):
     return "elisp" if ro.get("chr") == "elisp" and ro.get("str") == "elisp" else ("default" if ro.get("kw") == [True, False, False] and ro.get("br") == "list" else "custom")
 
 
+# tokens that fail in ways of their own (a nested number parser, escapes, ranges); joined with the C08 token corpus
+ERROR_TOKENS = ["1e999", "-1e999", "1e400", "9.9e999", "123456789012345678901234567890e999", "#e1", "#x1g", "#b2", "#\\xD800", "#\\x110000",
+                "#\\nosuchname", '"\\xD800;"', '"\\x110000;"', '"\\q"', '"\\u12"', '"\\N{U+110000}"', "#u8(256)", "#u8(-1)", "#u8(a)", "#u8(1.5)",
+                "?\\C-", "?\\N{U+110000}", "?\\x110000", "?\\u12", "#:", "#z", "#!eof", "1x", "1.2.3", "0x", "#\\", "\\", "{", "}", "#<a>",
+                "#xFFFFFFFFFFFFFFFFFFFFFFFFFFFFFFFFFFFFFFFFFFFFFFFFFFFFFFFFFFFFFFFFFFFFFFFFFFFFFFFFFFFFFFFFFFFFFFFFFFFFFFFFFFFFFFFFFFFFFFFFFFFFFFFFFFFFFFFFFFFF"
+                "FFFFFFFFFFFFFFFFFFFFFFFFFFFFFFFFFFFFFFFFFFFFFFFFFFFFFFFFFFFFFFFFFFFFFFFFFFFFFFFFFFFFFFFFFFFFFFFFFFFFFFFFFFFFFFFFFFFFFFFFFFFFFFFFFFFFFFFFFFFFFFFFFFFFFFFFFFFFFFFFFFFFFFFFFFFFFFFFFFFFFFFFFFFFFFFF"]
+
+
+def _alphabet():
+    import importlib.util
+    spec = importlib.util.spec_from_file_location("corpus_gen", os.path.join(vlib.ROOT, "gen", "corpus.py"))
+    m = importlib.util.module_from_spec(spec)
+    spec.loader.exec_module(m)
+    toks = [t.replace("\u00a7", "\\") for t in m.TOKENS] + [t.replace("\\\\", "\\") for t in ERROR_TOKENS]
+    return [list(t.encode("utf-8")) for t in toks]
+
+
 def run(ctx):
     q = ctx.quick()
     res = vlib.run_tlc(os.path.join(vlib.SPEC, "mc", "C19.tla"), workdir=ctx.path("tlc"), workers=8)
@@ -36,13 +53,13 @@ def run(ctx):
     cases = ctx.path("cases.ndjson")
     vlib.write_ndjson(cases, res.replay)
     out, tracep = common.harness_json(ctx, "c19", {"cases_file": cases, "seed": ctx.seed, "random_values": 300 if q else 6000,
-                                                    "random_junk": 3000 if q else 100000, "trace_bytes": 250000 if q else 4000000})
+                                                    "random_junk": 4000 if q else 100000, "alphabet_extra": _alphabet(), "trace_bytes": 250000 if q else 4000000})
     tres, events = _report(ctx, out, tracep)
     ctx.cov["evaluations"] = out["evaluations"] + out["prefixes"]
     ctx.cov["distinct_nontrivial"] = out["distinct_wellformed"]
     ctx.cov["traces_validated_against_impl"] = tres.events
     ctx.cov["rule"] = ("texts: the TLC-checked corpus of single-datum texts (every token kind, both dialects), seeded random values "
-                       "printed with the default and the Emacs Lisp printer, seeded token-alphabet junk; for every text that the "
+                       "printed with the default and the Emacs Lisp printer, seeded junk spliced from a token alphabet and from the specification's token corpus (every token class with its near misses, out-of-range numbers, bad escapes) laid out over several lines; for every text that the "
                        "implementation parses, every proper byte prefix is parsed (slice; str and reader on every third) and a "
                        "failure must be of the EOF category; every error from every source is checked for location bounds and "
                        "io::Error kind; distinct = distinct well-formed texts whose prefixes were all tried")
